@@ -197,10 +197,17 @@ class WheelStream(Stream):
         name = rng.choice(["foo", "foo_bar", "zope.interface"])
         own = "Name: %s\nVersion: 1.0\nRequires-Dist: own-dep\n" % name
         members = [["%s/__init__.py" % name.replace(".", "/"), "x = 1\n"]]
-        layout = rng.choice(["own", "own", "own+vendored", "own+vendored-prefix", "none", "nested-own", "corrupt", "own-last", "own+same-name-vendored"])
+        layout = rng.choice(["own", "own", "own+vendored", "own+vendored-prefix", "none", "nested-own", "corrupt", "own-last", "own+same-name-vendored",
+                             "unreadable-empty", "unreadable-utf16", "unreadable-no-name"])
         dist = "%s-1.0.dist-info/METADATA" % name
         if layout in ("own", "own+vendored", "own+vendored-prefix", "own-last", "own+same-name-vendored"):
             members.append([dist, own])
+        if layout == "unreadable-empty":
+            members.append([dist, ""])
+        if layout == "unreadable-utf16":
+            members.append([dist, {"bytes-utf16": own}])
+        if layout == "unreadable-no-name":
+            members.append([dist, "Metadata-Version: 2.1\nVersion: 1.0\nSummary: no name here\n\nA description.\n"])
         if layout == "nested-own":
             members.append(["sub/" + dist, own])
         if layout == "own+vendored":
@@ -225,6 +232,8 @@ class WheelStream(Stream):
         else:
             with zipfile.ZipFile(path, "w") as z:
                 for n, content in case["members"]:
+                    if isinstance(content, dict):
+                        content = content["bytes-utf16"].encode("utf-16")
                     z.writestr(n, content)
         try:
             d = extract_metadata(path)
@@ -241,7 +250,7 @@ class WheelStream(Stream):
 
     def oracle(self, case, r):
         lay = case["layout"]
-        if lay in ("none", "corrupt"):
+        if lay in ("none", "corrupt", "unreadable-empty", "unreadable-utf16", "unreadable-no-name"):
             if "error" not in r:
                 return [("C11/no-metadata-but-distribution", {"layout": lay, "got": r})]
             if r["error"] != "MetadataError":
